@@ -1882,7 +1882,7 @@ Proof.
     { apply (Hcc a' cj c); [|rewrite E6'; assumption|assumption].
       rewrite Es, E6. apply in_or_app. left. apply in_or_app. right. left. reflexivity. }
     rewrite E6' in Hpos. lia. }
-  destruct E1 as (El1 & Ea). subst l1' l2' a'. assert (w' = c) by lia. subst w'. rewrite <- Es in R1.
+  destruct E1 as (El1 & Ea). clear R0. subst l1' l2' a'. assert (w' = c) by lia. subst w'. rewrite <- Es in R1.
   rewrite R2, Hu2 in R1 |- *.
   split; [assumption|]. split; [reflexivity|].
   assert (Hk' : kind (fst st') = SegNormal).
